@@ -191,3 +191,61 @@ def _range_walk(ctx, F):
             ctx.judge("Add" in t and "len" in t, "C30.range-walk", "%s: the cursor moves to the end of the group" % short(g.q), expected="start_index + group.len", found=t[:120], where=where(g),
                       key="C30.range-walk|advance|" + g.q)
     ctx.floor("C30.range-walk", len(impls), 1, "bulk_transition_state implementations")
+    _slab_walk(ctx, F)
+
+
+def _slab_walk(ctx, F):
+    """C30.range-walk (c): the two-level table hands the range to the updater slab by slab. For each piece
+    [low, high = min(next slab boundary, limit)) the slice is slab(low)[index(low) .. ub], where ub is the slab's chunk count exactly when
+    index(high) wrapped to 0 (high is a slab boundary) and index(high) otherwise; the cursor then moves to high."""
+    q = "util::heap::layout::mmapper::csm::two_level_storage::TwoLevelStateStorage::foreach_slab_slice_for_write"
+    f = F.fns.get(q)
+    if f is None:
+        raise AnalysisError("C30.range-walk: %s not found" % q)
+    HIGH = r"Ord::min\(Address::align_down\(<Address as Add<usize>>::add\(.*, two_level_storage::MMAP_SLAB_BYTES=\d+\), two_level_storage::MMAP_SLAB_BYTES=\d+\), ChunkRange::limit\(arg2\)\)"
+    idx = [c for c in live_calls(f, name="index") if "get_or_allocate_slab_table" in show(simp(f.flow.arg_tree(c, 0)))]
+    ok, found = len(idx) == 1, "slab slice sites=%d" % len(idx)
+    if ok:
+        r = simp(f.flow.arg_tree(idx[0], 1))
+        ok = bool(r) and r[0] == "agg" and r[1][1] == "std::ops::Range" and len(r[2]) == 2
+        found = "slice bounds: %s" % show(r)[:200]
+    if ok:
+        lo, hi = simp(r[2][0]), simp(r[2][1])
+        slab_of = show(simp(f.flow.arg_tree(idx[0], 0)))
+        m = re.match(r"^TwoLevelStateStorage::get_or_allocate_slab_table\(arg1, (.*)\)$", slab_of)
+        ok = m is not None and show(lo) == "TwoLevelStateStorage::in_slab_index(%s)" % m.group(1)
+        found = "slab of %s, lower index %s" % (slab_of[:120], show(lo)[:120])
+        if ok:
+            alts = [simp(a) for a in hi[1]] if hi and hi[0] == "phi" else [hi]
+            consts = [a for a in alts if a and a[0] == "const" and str(a[3] or "").endswith("MMAP_CHUNKS_PER_SLAB")]
+            idxs = [a for a in alts if re.match(r"^TwoLevelStateStorage::in_slab_index\(%s\)$" % HIGH, show(a))]
+            ok = len(alts) == 2 and len(consts) == 1 and len(idxs) == 1
+            found = "upper bound alternatives: %s" % [show(a)[:80] for a in alts]
+    if ok:
+        # which alternative is taken when
+        sel = {}
+        for i, b in enumerate(f.blocks):
+            if i not in f.cfg.live:
+                continue
+            for j, st in enumerate(b["s"]):
+                if st[0] == "=" and len(st[1]) == 1:
+                    t = show(simp(f.flow.rvalue_tree(st[2], i, j)))
+                    kind = "full" if re.match(r"^two_level_storage::MMAP_CHUNKS_PER_SLAB=\d+$", t) else "index" if re.match(r"^TwoLevelStateStorage::in_slab_index\(%s\)$" % HIGH, t) else None
+                    if kind:
+                        gs = [(show(simp(p.tree)), p.val) for p in guards(f, i)]
+                        w = [(g, v) for g, v in gs if re.match(r"^\(TwoLevelStateStorage::in_slab_index\(%s\) (Eq|Ne) 0\)$" % HIGH, g) or re.match(r"^\(0 (Eq|Ne) TwoLevelStateStorage::in_slab_index\(%s\)\)$" % HIGH, g)]
+                        if w:
+                            g, v = w[-1]
+                            wrapped = (v is True) if " Eq " in g else (v is False)
+                            sel.setdefault(kind, set()).add(wrapped)
+        ok = sel.get("full") == {True} and sel.get("index") == {False}
+        found = "upper bound = chunks-per-slab when index(high)==0 is %s; = index(high) when index(high)==0 is %s" % (sorted(sel.get("full", [])), sorted(sel.get("index", [])))
+    ctx.judge(ok, "C30.range-walk", "each slab slice ends at the slab's end exactly when the piece ends on a slab boundary", expected="slab(low)[index(low) .. (index(high) == 0 ? CHUNKS_PER_SLAB : index(high))], high = min(next slab boundary, limit)",
+              found=found, where=where(f), key="C30.range-walk|slab-slice")
+    # the cursor moves to `high` before the next iteration
+    heads = [h for h in f.cfg.loop_heads()] if hasattr(f.cfg, "loop_heads") else []
+    mins = [c for c in live_calls(f, name="min")]
+    lts = [c for c in live_calls(f, name="lt")]
+    okc = len(mins) == 1 and len(lts) == 1 and re.search(r"phi\(%s \| arg2\.start\)|phi\(arg2\.start \| %s\)" % (HIGH, HIGH), show(simp(f.flow.arg_tree(lts[0], 0)))) is not None
+    ctx.judge(okc, "C30.range-walk", "the slab cursor restarts at the end of the piece just handed out", expected="low = high; loop while low < limit", found=show(simp(f.flow.arg_tree(lts[0], 0)))[:200] if lts else "no loop test", where=where(f),
+              key="C30.range-walk|slab-cursor")
